@@ -1,9 +1,11 @@
 import ComposeVerif.Ops.Common
 import ComposeVerif.Model.C11Defaults
 import ComposeVerif.Model.C11Normalize
+import ComposeVerif.Model.C11Keys
+import ComposeVerif.Model.C11Pipeline
 import ComposeVerif.Gen.Tables
 /-! line-protocol ops for C11: `c11.normalize`, `c11.setDefaults`, `c11.canonical`, `c11.dependsOn`,
-`c11.envFile`, `c11.clean` -/
+`c11.envFile`, `c11.clean`, `c11.indexKey`, `c11.unicity`, `c11.pipeline` -/
 open Lean
 namespace CV.Ops.C11
 open CV CV.C11
@@ -40,10 +42,74 @@ def canonicalOp : Handler := fun args =>
   | .ok _ => bad "dict is not a mapping"
   | .error e => bad e
 
+/-- Canonical ; SetDefaultValues ; Normalize, and the same three stages once more on the result (`again`: the result
+of the second pass, compared by the harness with the first) -/
+def pipelineOp : Handler := fun args =>
+  match getVal args "dict" with
+  | .ok (.map d) =>
+    let env := getStrMap args "env"
+    match pipeline CV.Gen.defaultValues pathClean env d with
+    | .ok e =>
+      let again : Json := match pipeline CV.Gen.defaultValues pathClean env e with
+        | .ok e2 => if (Val.map e2).toJson == (Val.map e).toJson then "same" else "differs"
+        | .err _ => "err"
+        | .panic s => Json.str ("panic " ++ s)
+      Json.mkObj [("ok", (Val.map e).toJson), ("again", again)]
+    | .err _ => Json.mkObj [("err", "err")]
+    | .panic s => Json.mkObj [("panic", s)]
+  | .ok _ => bad "dict is not a mapping"
+  | .error e => bad e
+
+/-- `tree.Path.Next` as the walker uses it (shared `TPath.next`): the escape facts `Props/C11Stages.lean` takes as a
+hypothesis are closed instances the kernel cannot evaluate; here they are evaluated and compared with Go's -/
+def nextOp : Handler := fun args =>
+  Json.mkObj [("ok", Json.arr ((TPath.next (getStrList args "p") (getStr args "k")).map Json.str).toArray)]
+
 def cleanOp : Handler := fun args =>
   Json.mkObj [("ok", Json.str (pathClean (getStr args "s")))]
 
+/-! unicity keys (override/uncity.go): the indexer is found the way `enforceUnicity` finds it — first row of the
+regenerated `unique` table that matches `services.a.<list>` — and must be one the model knows. -/
+
+def outKey : Out String → Json
+  | .ok k => Json.mkObj [("ok", k)]
+  | .err _ => Json.mkObj [("err", "err")]
+  | .panic s => Json.mkObj [("panic", s)]
+
+def listIndexer (list : String) : Option (Val → Out String) :=
+  match TPath.firstMatch CV.Gen.unique (((TPath.root.next "services").next "a").next list) with
+  | some h => indexerOf h
+  | none => none
+
+/-- what `SetDefaultValues` (ports, secrets) / `Canonical` (env_file) make of one entry of the list -/
+def entryDefaults (list : String) (v : Val) : Out Val :=
+  if list = "ports" then portDefaults v
+  else if list = "secrets" then defaultSecretMount v
+  else if list = "env_file" then .ok (envFileValue v)
+  else .ok v
+
+def indexKeyOp : Handler := fun args =>
+  let list := getStr args "list"
+  match getVal args "v", listIndexer list with
+  | .ok v, some key =>
+    let dkey : Out String := match entryDefaults list v with
+      | .ok v' => key v'
+      | .err e => .err e
+      | .panic s => .panic s
+    Json.mkObj [("key", outKey (key v)), ("dkey", outKey dkey)]
+  | .ok _, none => bad ("no modelled indexer for services.a." ++ list)
+  | .error e, _ => bad e
+
+def unicityOp : Handler := fun args =>
+  let list := getStr args "list"
+  match getVal args "xs", listIndexer list with
+  | .ok (.seq xs), some key => outVal ((enforceSeq key xs).map Val.seq)
+  | .ok _, some _ => bad "xs is not a sequence"
+  | .ok _, none => bad ("no modelled indexer for services.a." ++ list)
+  | .error e, _ => bad e
+
 def handlers : List (String × Handler) :=
-  [("c11.normalize", normalizeOp), ("c11.setDefaults", setDefaultsOp), ("c11.canonical", canonicalOp), ("c11.clean", cleanOp)]
+  [("c11.normalize", normalizeOp), ("c11.setDefaults", setDefaultsOp), ("c11.canonical", canonicalOp), ("c11.clean", cleanOp),
+   ("c11.pipeline", pipelineOp), ("c11.next", nextOp), ("c11.indexKey", indexKeyOp), ("c11.unicity", unicityOp)]
 
 end CV.Ops.C11
